@@ -80,12 +80,15 @@ type c12Kind int
 const (
 	c12KUnknown c12Kind = iota
 	c12KBool
-	c12KInt   // exact integer
-	c12KSign  // integer/duration of which only the sign is known (n in -1,0,1)
-	c12KSlice // the slice being sorted
-	c12KLen   // len(the slice being sorted)
-	c12KIdx   // the index parameter of one side
-	c12KPath  // element of one side, or a field (path) of it; pointers to it are the same value
+	c12KInt    // exact integer
+	c12KSign   // integer/duration of which only the sign is known (n in -1,0,1)
+	c12KSlice  // the slice being sorted
+	c12KLen    // len(the slice being sorted)
+	c12KIdx    // the index parameter of one side
+	c12KPath   // element of one side, or a field (path) of it; pointers to it are the same value
+	c12KFunc   // a function value: declared function, bound method, or function literal with its environment
+	c12KStruct // a struct value built by a composite literal (a sort adapter holding the slice and a comparator)
+	c12KTable  // an array, slice or map literal (a lookup table of comparators), indexed by constants
 )
 
 type c12Val struct {
@@ -96,6 +99,9 @@ type c12Val struct {
 	path string
 	typ  types.Type
 	why  string
+	fv   *c12FuncVal           // c12KFunc
+	flds map[*types.Var]c12Val // c12KStruct
+	tbl  *ast.CompositeLit     // c12KTable (fv.env: the environment the literal was written in)
 }
 
 func c12Unknown(format string, args ...interface{}) c12Val {
@@ -113,6 +119,8 @@ type c12Cmp struct {
 	body  *ast.BlockStmt
 	bind  map[types.Object]c12Val // receiver / captured slice, index parameters
 	elem  types.Type              // element type of the slice
+	entry *c12FuncVal             // if set, the comparator is this function value applied to args (instead of ftype/body)
+	args  []c12Val
 }
 
 // c12Run is one interpretation of a comparator on one abstract input.
@@ -196,6 +204,12 @@ func (ru *c12Run) expr(e ast.Expr, env c12Env, depth int) c12Val {
 		if v, ok := ru.c.bind[o]; ok {
 			return v
 		}
+		if fn, ok := o.(*types.Func); ok {
+			return c12Val{k: c12KFunc, fv: &c12FuncVal{fn: fn}}
+		}
+		if init := c12PkgVarInit(ru.c.pk, o); init != nil && depth > 0 {
+			return ru.expr(init, c12Env{}, depth-1) // a package-level variable that is never reassigned
+		}
 		return c12Unknown("`%s` is neither an element of the sorted slice nor derived from one", x.Name)
 	case *ast.StarExpr:
 		return ru.expr(x.X, env, depth) // pointers to elements/fields denote the element/field
@@ -203,7 +217,7 @@ func (ru *c12Run) expr(e ast.Expr, env c12Env, depth int) c12Val {
 		v := ru.expr(x.X, env, depth)
 		switch x.Op {
 		case token.AND:
-			if v.k == c12KPath || v.k == c12KUnknown {
+			if v.k == c12KPath || v.k == c12KUnknown || v.k == c12KStruct {
 				return v
 			}
 			return c12Unknown("address of `%s`", ru.src(x.X))
@@ -227,6 +241,9 @@ func (ru *c12Run) expr(e ast.Expr, env c12Env, depth int) c12Val {
 		return c12Unknown("operator %s on `%s`", x.Op, ru.src(x.X))
 	case *ast.IndexExpr:
 		s := ru.expr(x.X, env, depth)
+		if s.k == c12KTable {
+			return ru.tableEntry(s, x, env, depth)
+		}
 		i := ru.expr(x.Index, env, depth)
 		if s.k == c12KSlice && i.k == c12KIdx {
 			return c12Val{k: c12KPath, side: i.side, typ: ru.c.elem}
@@ -239,8 +256,17 @@ func (ru *c12Run) expr(e ast.Expr, env c12Env, depth int) c12Val {
 		}
 		return c12Unknown("`%s` is not an element of the sorted slice at one of the two compared positions", ru.src(x))
 	case *ast.SelectorExpr:
+		if sel := info.Selections[x]; sel != nil && sel.Kind() != types.FieldVal {
+			return ru.methodValue(x, sel, env, depth)
+		}
 		if sel := info.Selections[x]; sel != nil && sel.Kind() == types.FieldVal {
 			v := ru.expr(x.X, env, depth)
+			if v.k == c12KStruct {
+				if fv, ok := v.flds[sel.Obj().(*types.Var)]; ok {
+					return fv
+				}
+				return c12Unknown("field %s of `%s` is not set where the value is built", x.Sel.Name, ru.src(x.X))
+			}
 			if v.k != c12KPath {
 				if v.k == c12KUnknown {
 					return v
@@ -278,6 +304,10 @@ func (ru *c12Run) expr(e ast.Expr, env c12Env, depth int) c12Val {
 		return ru.binary(x.Op, l, r, func() string { return ru.src(x) })
 	case *ast.CallExpr:
 		return ru.call(x, env, depth)
+	case *ast.CompositeLit:
+		return ru.composite(x, env, depth)
+	case *ast.FuncLit:
+		return c12Val{k: c12KFunc, fv: &c12FuncVal{lit: x, env: env}}
 	}
 	return c12Unknown("expression `%s`", ru.src(e))
 }
@@ -415,7 +445,15 @@ func (ru *c12Run) call(x *ast.CallExpr, env c12Env, depth int) c12Val {
 	}
 	fn := callee(info, x)
 	if fn == nil {
-		return c12Unknown("dynamic call `%s`", ru.src(x))
+		// call of a function value: a field, local or parameter holding a function
+		f := ru.expr(x.Fun, env, depth)
+		if f.k != c12KFunc {
+			if f.k == c12KUnknown {
+				return c12Unknown("dynamic call `%s`: %s", ru.src(x), f.why)
+			}
+			return c12Unknown("dynamic call `%s`", ru.src(x))
+		}
+		return ru.applyArgs(f.fv, x, env, depth)
 	}
 	sel, _ := ast.Unparen(x.Fun).(*ast.SelectorExpr)
 	sig := fn.Type().(*types.Signature)
@@ -453,53 +491,19 @@ func (ru *c12Run) call(x *ast.CallExpr, env c12Env, depth int) c12Val {
 		return c12Unknown("time.Time.%s is not an ordering predicate", fn.Name())
 	}
 	// same-package function or method with a body: interpret it
-	if fn.Pkg() != ru.c.pk.Types {
-		return c12Unknown("call of %s.%s", fn.Pkg().Name(), fn.Name())
-	}
-	if depth <= 0 {
-		return c12Unknown("helper calls nested too deeply at `%s`", ru.src(x))
-	}
-	fi := findFunc(ru.c.pk, funcName(fn))
-	if fi == nil || fi.Decl.Body == nil {
-		return c12Unknown("no body for %s", fn.Name())
-	}
-	if sig.Variadic() {
-		return c12Unknown("variadic helper %s", fn.Name())
-	}
-	cenv := c12Env{}
-	if fi.Decl.Recv != nil {
+	f := &c12FuncVal{fn: fn}
+	if sig.Recv() != nil {
 		if sel == nil {
 			return c12Unknown("method value `%s`", ru.src(x.Fun))
 		}
-		rv := ru.expr(sel.X, env, depth)
-		if len(fi.Decl.Recv.List) == 1 && len(fi.Decl.Recv.List[0].Names) == 1 {
-			if o := info.Defs[fi.Decl.Recv.List[0].Names[0]]; o != nil {
-				cenv[o] = rv
-			}
+		if s2 := info.Selections[sel]; s2 != nil && s2.Kind() == types.MethodExpr {
+			// T.m(recv, args...): the receiver is the first argument
+		} else {
+			rv := ru.expr(sel.X, env, depth)
+			f.recv = &rv
 		}
 	}
-	k := 0
-	for _, f := range fi.Decl.Type.Params.List {
-		for _, nm := range f.Names {
-			if k < len(x.Args) {
-				if o := info.Defs[nm]; o != nil {
-					cenv[o] = ru.expr(x.Args[k], env, depth)
-				}
-			}
-			k++
-		}
-		if len(f.Names) == 0 {
-			k++
-		}
-	}
-	vals, why := ru.fn(fi.Decl.Type, fi.Decl.Body, cenv, depth-1)
-	if why != "" {
-		return c12Unknown("%s", why)
-	}
-	if len(vals) != 1 {
-		return c12Unknown("helper %s returns %d values", fn.Name(), len(vals))
-	}
-	return vals[0]
+	return ru.applyArgs(f, x, env, depth)
 }
 
 // fn interprets a function body and returns the returned values.
@@ -717,6 +721,9 @@ func (ru *c12Run) stmt(s ast.Stmt, env c12Env, depth int) (c12Flow, []c12Val, st
 		for i, l := range x.Lhs {
 			id, ok := ast.Unparen(l).(*ast.Ident)
 			if !ok {
+				if ru.assignField(l, vals[i], env) {
+					continue
+				}
 				return c12FUnknown, nil, "the comparator writes to `" + ru.src(l) + "`"
 			}
 			if id.Name == "_" {
@@ -806,7 +813,7 @@ restart:
 			for i, v := range vars {
 				ru.rel[v.path] = rel[i]
 			}
-			vals, why := ru.fn(c.ftype, c.body, c12Env{}, 4)
+			vals, why := ru.run(4)
 			if ru.need != nil || (ru.nSame && same < 0) {
 				return false, ru, ""
 			}
@@ -1071,6 +1078,8 @@ type c12Sort struct {
 	slice   types.Object // variable holding the slice handed to sort.Slice
 	host    *FuncInfo    // function that lexically contains the call
 	sorted  ast.Expr     // the argument that is sorted
+	opExpr  ast.Expr     // sort.Sort: the expression of concrete type that is sorted (an argument further up when the
+	opHost  *FuncInfo    // operand is an interface-typed parameter of a helper) and the function it is written in
 }
 
 // c12FindSort finds the call of sort.Sort/Stable/Slice/SliceStable reached from fi (directly or through unexported
@@ -1087,7 +1096,7 @@ func c12FindSort(pk *packages.Package, fi *FuncInfo) []*c12Sort {
 		switch {
 		case (isPkgFunc(fn, "sort", "Sort") || isPkgFunc(fn, "sort", "Stable")) && len(call.Args) == 1:
 			s := &c12Sort{call: call, fn: fn.Name(), host: site.fi, sorted: call.Args[0]}
-			s.adapter = c12ConcreteNamed(pk, fi, site, call.Args[0])
+			s.adapter, s.opExpr, s.opHost = c12ConcreteNamed(pk, fi, site, call.Args[0])
 			out = append(out, s)
 		case (isPkgFunc(fn, "sort", "Slice") || isPkgFunc(fn, "sort", "SliceStable")) && len(call.Args) == 2:
 			s := &c12Sort{call: call, fn: fn.Name(), host: site.fi, sorted: call.Args[0]}
@@ -1104,36 +1113,36 @@ func c12FindSort(pk *packages.Package, fi *FuncInfo) []*c12Sort {
 
 // c12ConcreteNamed returns the named non-interface type of the operand of sort.Sort; when the operand is a
 // parameter of interface type of an extracted helper, the argument at the call that led there is used instead.
-func c12ConcreteNamed(pk *packages.Package, root *FuncInfo, site deepSite, e ast.Expr) *types.Named {
+func c12ConcreteNamed(pk *packages.Package, root *FuncInfo, site deepSite, e ast.Expr) (*types.Named, ast.Expr, *FuncInfo) {
 	info := pk.TypesInfo
 	host := site.fi
 	stack := site.stack
 	for {
 		t := info.TypeOf(e)
 		if t == nil {
-			return nil
+			return nil, nil, nil
 		}
 		if pt, ok := t.(*types.Pointer); ok {
 			t = pt.Elem()
 		}
 		nt, ok := t.(*types.Named)
 		if !ok {
-			return nil
+			return nil, nil, nil
 		}
 		if _, isIface := nt.Underlying().(*types.Interface); !isIface {
-			return nt
+			return nt, e, host
 		}
 		if len(stack) == 0 {
-			return nil
+			return nil, nil, nil
 		}
 		v := c12Resolve(info, host.Decl.Body, e)
 		if v == nil {
-			return nil
+			return nil, nil, nil
 		}
 		call := stack[len(stack)-1]
 		arg := argForParam(info, host, call, v)
 		if arg == nil {
-			return nil
+			return nil, nil, nil
 		}
 		stack = stack[:len(stack)-1]
 		host = root
@@ -1143,7 +1152,7 @@ func c12ConcreteNamed(pk *packages.Package, root *FuncInfo, site deepSite, e ast
 			}
 		}
 		if host == nil {
-			return nil
+			return nil, nil, nil
 		}
 		e = arg
 	}
@@ -1229,36 +1238,7 @@ func c12MethodCmp(pk *packages.Package, fd *ast.FuncDecl) (*c12Cmp, string) {
 
 // c12LitCmp prepares the less function literal of sort.Slice(slice, func(i, j int) bool {...}).
 func c12LitCmp(pk *packages.Package, s *c12Sort, name string) (*c12Cmp, string) {
-	info := pk.TypesInfo
-	if s.lit == nil {
-		return nil, "the less argument of sort." + s.fn + " is not a function literal"
-	}
-	if s.slice == nil {
-		return nil, "the slice argument of sort." + s.fn + " is not a variable"
-	}
-	c := &c12Cmp{pk: pk, name: name, pos: s.lit.Pos(), ftype: s.lit.Type, body: s.lit.Body, bind: map[types.Object]c12Val{}}
-	c.elem = c12SliceElem(s.slice.Type())
-	if c.elem == nil {
-		return nil, "the argument of sort." + s.fn + " is not a slice"
-	}
-	c.bind[s.slice] = c12Val{k: c12KSlice}
-	// a single-assignment alias of the sorted slice inside the host function denotes the same slice
-	if root := c12SliceAliasRoot(info, s.host, s.slice); root != nil {
-		c.bind[root] = c12Val{k: c12KSlice}
-	}
-	side := 0
-	for _, f := range s.lit.Type.Params.List {
-		for _, nm := range f.Names {
-			if o := info.Defs[nm]; o != nil && side < 2 {
-				c.bind[o] = c12Val{k: c12KIdx, side: side}
-			}
-			side++
-		}
-	}
-	if side != 2 {
-		return nil, "less function without two named parameters"
-	}
-	return c, ""
+	return c12SliceCmp(pk, s, name)
 }
 
 // c12SliceAliasRoot: if v is defined once in host as `v := T(w)` / `v := w`, it returns w.
